@@ -49,7 +49,7 @@ HIST_RULE = ("Random interleavings of all frame operations (derive/edit/observe)
 
 PROPS = {
     "HIST": {"plans": ["HIST"], "codes": [1, 2, 10, 11, 12, 20, 30, 31, 40, 41], "rule": HIST_RULE},
-    "C01": {"plans": ["C01"], "codes": [10, 11, 12, 13],
+    "C01": {"plans": ["C01", "C14"], "codes": [10, 11, 12, 13, 65],
             "rule": "C01 plan: random histories of 1-12 operations over 1-3 live frames, weighted towards AppendRow with unseen column names, "
                     "repeated Loc/Iloc labels and repeated CSV header names; after every successful step every live frame must be rectangular, "
                     "stored under its own names, Nrows() must agree, and surviving rows must be whole rows of the source."},
@@ -97,7 +97,7 @@ PROPS = {
                     "sampled worker-valid orders for 6..40 rows (more rows than workers), the whole plan under the Go race detector."},
     "C18": {"focus": ["resample"], "plans": ["C18"], "codes": [1, 2, 50],
             "rule": "C18 plan: frames with an unsorted, repeating time column 1900-2100 in UTC or one fixed-offset zone, six frequency codes, four aggregators, each call repeated 5 times."},
-    "C19": {"focus": ["shift"], "plans": ["C19"], "codes": [1, 2, 41, 20], "exhaustive_all": False,
+    "C19": {"focus": ["shift"], "plans": ["C19"], "codes": [1, 2, 41, 20, 21], "exhaustive_all": False,
             "rule": "C19 plan: every frame of 0..R rows x 23 boundary offsets (exhaustive stream), then random frames and offsets; each history is Shift(p) then Shift(-p)."},
     "C20": {"plans": ["C20"], "codes": [30, 31, 32],
             "rule": "C20 plan: histories in which half of the arguments are deliberately invalid (unknown names, out-of-range and extreme indices, unknown option strings, operands with other columns, cells of the wrong kind)."},
